@@ -613,7 +613,7 @@ impl<'a> Http2Parser<'a> {
 
     /// Header block fragment of a HEADERS frame: the payload without the pad length octet,
     /// the priority fields and the trailing padding (RFC 7540 section 6.2).
-    fn header_block_fragment(frame: &Http2Frame) -> Result<&[u8], Http2ParseError> {
+    pub(crate) fn header_block_fragment(frame: &Http2Frame) -> Result<&[u8], Http2ParseError> {
         let mut fragment: &[u8] = &frame.payload;
         let mut pad_length: usize = 0;
         if frame.flags & FLAG_PADDED != 0 {
